@@ -70,6 +70,8 @@ pub fn bar_info_case(kind: BarKind, slot: usize, addr: u64, command: u16) -> (St
         f.set_bar_address(nb, 0xfebd_1000);
     }
     f.command = command & COMMAND_WRITABLE;
+    // Pending error bits in the status register (write-one-to-clear): probing must not touch them.
+    f.status = 0xf9b0;
     f.status = 0x0010;
     let want = truth(&f, slot);
     let before = f.visible_state();
@@ -158,6 +160,7 @@ pub fn bars_case(assign: &[BarKind; 6], command: u16) -> Vec<(String, String)> {
         }
     }
     f.command = command;
+    f.status = 0xa830;
     let mut want: [Option<BarInfo>; 6] = Default::default();
     for i in 0..6 {
         want[i] = truth(&f, i).unwrap_or(None);
